@@ -533,6 +533,27 @@ end ZipVerif.Model
 namespace ZipVerif.Model
 open ZipVerif
 
+/-- `strip_zip64_extra_field`: remove every ZIP64 extended information record (id 0x0001) from a sequence
+of extra field records; bytes that do not form a complete record (a malformed tail) are kept.  The ZIP64
+record is regenerated by `write_central_directory_header` (the D20 repair). -/
+def stripZip64 : (fuel : Nat) → Bytes → Bytes
+  | 0, rest => rest
+  | fuel + 1, rest =>
+    if rest.length < 4 then rest else
+    match rd16 rest with
+    | none => rest
+    | some (kind, r1) =>
+    match rd16 r1 with
+    | none => rest
+    | some (len, r2) =>
+      if r2.length < len.toNat then rest
+      else if kind != 0x0001 then rest.take (4 + len.toNat) ++ stripZip64 fuel (r2.drop len.toNat)
+      else stripZip64 fuel (r2.drop len.toNat)
+
+/-- what `new_append` keeps of a re-hydrated record -/
+def appendRecord (f : FileData) : FileData :=
+  { f with extraField := stripZip64 (f.extraField.length + 1) f.extraField }
+
 open M in
 /-- `ZipWriter::new_append`: device errors / archive errors are `M` errors; the ignored seek is ignored. -/
 def newAppend : M WState := do
@@ -549,7 +570,7 @@ def newAppend : M WState := do
         | n + 1 => do
           let f ← centralHeader archiveOffset
           let rest ← loop n
-          pure (f :: rest)
+          pure (appendRecord f :: rest)
       let files ← loop numberOfFiles
       let _ ← attempt (seek (.start directoryStart))
       pure { WState.init with files, comment := footer.comment, writingRaw := true }
